@@ -196,6 +196,7 @@ def correspondence(ctx: Ctx):
     yield from history_cases(ctx)
     yield from poisson_crop_cases(ctx)
     yield from form_cases(ctx)
+    yield from large_size_cases(ctx)
 
 
 # --------------------------------------------------------------------------------------------------
@@ -258,6 +259,102 @@ def float_glue_cases(ctx: Ctx):
         yield {"line": line("num_low_exact", [gid(name), cols], [cn, cd, an, ad, 1 if isinstance(cf, int) else 0]), "impl": (lambda a=a: a),
                "nontrivial": res.get("ok", False),
                "bucket": f"kernel/num_low_exact/{name}" + ("/tie" if tie else "") + ("" if res.get("ok") else "/rejected")}
+
+
+LARGE_SHAPES = [(368, 368), (512, 246), (640, 368), (1024, 64), (512, 512), (372, 640), (320, 320), (218, 170)]
+
+
+def _d2(rows: int, cols: int):
+    """exact squared distances from the centre sample, in 64-bit signed integers built explicitly"""
+    x = np.arange(rows, dtype=np.int64)[:, None] - rows // 2
+    y = np.arange(cols, dtype=np.int64)[None, :] - cols // 2
+    return x * x + y * y
+
+
+def large_size_cases(ctx: Ctx):
+    """the cheap geometric helpers on realistic LARGE k-space sizes (helper level, a few ms each): `center_mask_func`
+    whole rows; `centered_disk_mask` at probe cells — the corners, the rim of the disc, every cell whose squared distance
+    would fall inside the disc after wrapping modulo 2^8 / 2^15 / 2^16 / 2^31, and random cells — against the integer model"""
+    from direct.common import subsample as S
+
+    rng = ctx.rng
+    for n in (246, 320, 368, 512, 640, 1024):
+        for l in sorted({1, 2, rng.randint(3, 40), rng.randint(3, 40), n // 12, n // 8 + 1, n - 1, n}):
+            def impl(n=n, l=l):
+                return "ok " + ints(S.CartesianVerticalMaskFunc.center_mask_func(n, l).astype(int).tolist())
+            yield {"line": line("center_mask", [n, l]), "impl": _guard(impl), "nontrivial": 1 <= l < n,
+                   "bucket": "kernel/large/center_mask/" + ("odd" if (n - l) % 2 else "even") + "-diff"}
+    shapes = LARGE_SHAPES if ctx.thorough else LARGE_SHAPES[:6]
+    for rows, cols in shapes:
+        for scale in ([0.04, 0.1, 0.3] if ctx.thorough else [rng.choice([0.04, 0.08]), rng.choice([0.15, 0.3])]):
+            radius = G.disc_radius(rows, cols, scale)
+            d2 = _d2(rows, cols)
+            cells = {(0, 0), (0, cols - 1), (rows - 1, 0), (rows - 1, cols - 1), (rows // 2, cols // 2), (0, cols // 2), (rows // 2, 0)}
+            rim = np.argwhere(np.abs(d2 - radius * radius) <= 2 * radius + 1)
+            for mod in (2 ** 8, 2 ** 15, 2 ** 16, 2 ** 31):
+                wrap = np.argwhere((d2 >= mod) & ((d2 % mod) < radius * radius))
+                for i in rng.sample(range(len(wrap)), min(len(wrap), 150)):
+                    cells.add((int(wrap[i][0]), int(wrap[i][1])))
+            for i in rng.sample(range(len(rim)), min(len(rim), 300)):
+                cells.add((int(rim[i][0]), int(rim[i][1])))
+            for _ in range(300):
+                cells.add((rng.randrange(rows), rng.randrange(cols)))
+            cells = sorted(cells)
+
+            def impl(rows=rows, cols=cols, scale=scale, cells=cells):
+                m = S.centered_disk_mask((rows, cols), scale)
+                assert m.shape == (rows, cols)
+                return "ok " + ints(int(bool(m[x, y])) for x, y in cells)
+            yield {"line": line("disc_probe", [rows, cols, radius], [v for c in cells for v in c]), "impl": _guard(impl),
+                   "nontrivial": radius >= 1, "bucket": f"kernel/large/disc_probe/{rows}x{cols}"}
+
+
+def large_oracle(ctx: Ctx, seen: set, deep: bool):
+    """the disc helpers on large k-space, whole grids, against exact integer arithmetic: the ACS disc is
+    {d² < radius²} about the centre sample (count and point symmetry follow), the CIRCUS search returns the sampled
+    part of the first disc of which more than 1/11 is unsampled"""
+    from direct.common import subsample as S
+
+    rng = ctx.rng
+    for rows, cols in (LARGE_SHAPES if (deep or ctx.thorough) else LARGE_SHAPES[:6]):
+        d2 = _d2(rows, cols)
+        for scale in [0.04, 0.1, 0.3]:
+            radius = G.disc_radius(rows, cols, scale)
+            exp = d2 < radius * radius
+            got = np.asarray(S.centered_disk_mask((rows, cols), scale)).astype(bool)
+            ctx.count(("large-disc", rows, cols, scale), radius >= 1, bucket=f"oracle/large/disc/{rows}x{cols}")
+            if got.shape != exp.shape or (got != exp).any():
+                key = "kernel-centered_disk_mask-large"
+                if key not in seen:
+                    seen.add(key)
+                    bad = np.argwhere(got != exp) if got.shape == exp.shape else []
+                    yield Violation(key, f"centered_disk_mask(({rows}, {cols}), {scale}): {len(bad)} cell(s) differ from the disc of radius {radius} "
+                                    f"about ({rows // 2}, {cols // 2}) — {int(got.sum())} cells instead of {int(exp.sum())}; e.g. {[tuple(map(int, b)) for b in bad[:3]]}",
+                                    {"op": "large-disc", "rows": rows, "cols": cols, "scale": scale, "expected_count": int(exp.sum()),
+                                     "observed_count": int(got.sum())})
+    circus = (((368, 368), 50), ((512, 246), 6)) + ((((640, 368), 70),) if (deep or ctx.thorough) else ())
+    for (rows, cols), core in circus:
+        d2 = _d2(rows, cols)
+        m = (np.random.RandomState(rng.randrange(2 ** 31)).random_sample((rows, cols)) < 0.3) | (d2 <= core * core)
+        packed = G.pack_rows(m, cols)
+        res = run({"op": "circus_disc", "rows": rows, "cols": cols, "mask": packed})
+        ctx.count(("large-circus", rows, cols, core), True, bucket=f"oracle/large/circus/{rows}x{cols}")
+        exp = None
+        for thr in circus_thresholds(rows, cols):
+            disk = d2 <= thr
+            inter = disk & m
+            if 10 * int(disk.sum()) > 11 * int(inter.sum()):
+                exp = inter
+                break
+        ok = res.get("ok") and exp is not None and res.get("rows") == G.pack_rows(exp, cols)
+        if not ok:
+            key = "hang-circus_disc" if res.get("hang") else "kernel-circular_centered_mask-large"
+            if key not in seen:
+                seen.add(key)
+                yield Violation(key, f"circular_centered_mask on a {rows} x {cols} mask with a fully sampled core of radius {core}: "
+                                + ("no return within the watchdog" if res.get("hang") else res.get("err") or
+                                   "the result is not the sampled part of the first disc with more than 1/11 unsampled"),
+                                {"op": "large-circus", "rows": rows, "cols": cols, "core": core, "mask": packed})
 
 
 def form_cases(ctx: Ctx):
@@ -954,6 +1051,8 @@ def oracle(ctx: Ctx, deep: bool = False):
     yield from site_oracle(ctx, seen, deep)
     # (5) every constructor / call argument in every form that can carry its value
     yield from forms_oracle(ctx, seen, deep)
+    # (6) the geometric helpers on realistic large k-space sizes, whole grids, exact integers
+    yield from large_oracle(ctx, seen, deep)
     yield from hang_violations(seen)
 
 
@@ -975,6 +1074,21 @@ def replay(rep: dict) -> bool:
             if res.get("hang") or res.get("died") or any(True for _k in check_history(spec, res)):
                 return True
         return False
+    if op == "large-disc":
+        rows, cols, scale = rep["rows"], rep["cols"], rep["scale"]
+        radius = G.disc_radius(rows, cols, scale)
+        got = np.asarray(S.centered_disk_mask((rows, cols), scale)).astype(bool)
+        return bool(got.shape != (rows, cols) or (got != (_d2(rows, cols) < radius * radius)).any())
+    if op == "large-circus":
+        rows, cols = rep["rows"], rep["cols"]
+        res = worker().run({"op": "circus_disc", "rows": rows, "cols": cols, "mask": rep["mask"]}, 60.0)
+        m = G.unpack_rows(rep["mask"], cols)
+        d2 = _d2(rows, cols)
+        for thr in circus_thresholds(rows, cols):
+            inter = (d2 <= thr) & m
+            if 10 * int((d2 <= thr).sum()) > 11 * int(inter.sum()):
+                return not (res.get("ok") and res.get("rows") == G.pack_rows(inter, cols))
+        return True
     if op == "acs-forms":
         spec = rep["spec"]
         res = hist_worker(BASES.get(spec["gen"], spec["gen"])).run(spec, 90.0)
